@@ -202,3 +202,141 @@ pub fn run(args: &[String]) -> i32 {
     w.finish();
     0
 }
+
+// ---------------------------------------------------------------- C05 over real sockets: FramedTransport
+/// transport-run <scenarios.ndjson> <out.ndjson>
+/// scenario: {id, hs: [[bytes]], dist: [[bytes]], chunk: n (0 = one write), handover: "mode" | "read_half"}
+/// The peer writes the spec's framing of `hs` (2-byte prefixes) followed by `dist` (4-byte prefixes); the client reads the
+/// handshake part through FramedTransport::read, then either switches the transport's frame mode or takes the read half and
+/// reads the rest with a MessageDeframer (what Connection / Node do).  The other direction: the client writes all messages through
+/// FramedTransport::write (mode switched in between) and the peer records the raw bytes.
+pub fn run_transport(args: &[String]) -> i32 {
+    use edp_client::framing::{FrameMode, MessageDeframer};
+    use edp_client::transport::FramedTransport;
+    use std::time::Duration;
+    use tokio::io::{AsyncReadExt, AsyncWriteExt};
+    use tokio::net::{TcpListener, TcpStream};
+    let scen = read_ndjson(&args[0]);
+    let rt = tokio::runtime::Builder::new_multi_thread().worker_threads(2).enable_all().build().expect("rt");
+    let mut w = NdWriter::create(&args[1]);
+    rt.block_on(async {
+        let listener = std::sync::Arc::new(TcpListener::bind("127.0.0.1:0").await.expect("bind"));
+        let addr = listener.local_addr().unwrap();
+        for sc in scen.iter() {
+            let hs: Vec<Vec<u8>> = sc["hs"].as_array().map(|a| a.iter().map(bytes_of).collect()).unwrap_or_default();
+            let dist: Vec<Vec<u8>> = sc["dist"].as_array().map(|a| a.iter().map(bytes_of).collect()).unwrap_or_default();
+            let chunk = sc["chunk"].as_u64().unwrap_or(0) as usize;
+            let read_half = sc["handover"].as_str() == Some("read_half");
+            let mut wire = Vec::new();
+            for m in &hs {
+                wire.extend_from_slice(&(m.len() as u16).to_be_bytes());
+                wire.extend_from_slice(m);
+            }
+            for m in &dist {
+                wire.extend_from_slice(&(m.len() as u32).to_be_bytes());
+                wire.extend_from_slice(m);
+            }
+            let expected_out = wire.clone();
+            let peer = tokio::spawn({
+                let wire = wire.clone();
+                let listener = listener.clone();
+                async move {
+                    let (mut s, _) = listener.accept().await.ok()?;
+                    if chunk == 0 {
+                        s.write_all(&wire).await.ok()?;
+                    } else {
+                        for c in wire.chunks(chunk) {
+                            s.write_all(c).await.ok()?;
+                            s.flush().await.ok()?;
+                            tokio::time::sleep(Duration::from_micros(200)).await;
+                        }
+                    }
+                    s.flush().await.ok()?;
+                    // now collect what the client writes, until it closes
+                    let mut got = Vec::new();
+                    let mut buf = [0u8; 4096];
+                    loop {
+                        match tokio::time::timeout(Duration::from_millis(400), s.read(&mut buf)).await {
+                            Ok(Ok(0)) | Ok(Err(_)) | Err(_) => break,
+                            Ok(Ok(n)) => got.extend_from_slice(&buf[..n]),
+                        }
+                    }
+                    Some(got)
+                }
+            });
+            let client = async {
+                let stream = TcpStream::connect(addr).await.ok()?;
+                let mut t = FramedTransport::new(Duration::from_millis(400));
+                t.connect(stream);
+                let mut read_hs = Vec::new();
+                let mut errs = Vec::new();
+                for _ in 0..hs.len() {
+                    match t.read().await {
+                        Ok(m) => read_hs.push(m),
+                        Err(e) => {
+                            errs.push(format!("{e:?}"));
+                            break;
+                        }
+                    }
+                }
+                let mut read_dist = Vec::new();
+                if read_half {
+                    if let Some(mut rh) = t.take_read_half() {
+                        let d = MessageDeframer::new(FrameMode::Distribution);
+                        for _ in 0..dist.len() {
+                            match tokio::time::timeout(Duration::from_millis(400), d.read_framed(&mut rh)).await {
+                                Ok(Ok(m)) => read_dist.push(m),
+                                Ok(Err(e)) => {
+                                    errs.push(format!("{e:?}"));
+                                    break;
+                                }
+                                Err(_) => {
+                                    errs.push("timeout".into());
+                                    break;
+                                }
+                            }
+                        }
+                        // writing still goes through the transport
+                    } else {
+                        errs.push("no read half".into());
+                    }
+                } else {
+                    t.set_frame_mode(FrameMode::Distribution);
+                    for _ in 0..dist.len() {
+                        match t.read().await {
+                            Ok(m) => read_dist.push(m),
+                            Err(e) => {
+                                errs.push(format!("{e:?}"));
+                                break;
+                            }
+                        }
+                    }
+                }
+                // the other direction
+                t.set_frame_mode(FrameMode::Handshake);
+                for m in &hs {
+                    if let Err(e) = t.write(m).await {
+                        errs.push(format!("write: {e:?}"));
+                    }
+                }
+                t.set_frame_mode(FrameMode::Distribution);
+                for m in &dist {
+                    if let Err(e) = t.write(m).await {
+                        errs.push(format!("write: {e:?}"));
+                    }
+                }
+                t.close();
+                Some((read_hs, read_dist, errs))
+            };
+            let (cl, pr) = tokio::join!(client, peer);
+            let written = pr.ok().flatten();
+            match cl {
+                Some((rh, rd, errs)) => w.put(&json!({"id": sc["id"], "read_hs": rh, "read_dist": rd, "errors": errs, "written_matches_framing": written.as_ref() == Some(&expected_out),
+                                                      "written_len": written.as_ref().map(|x| x.len()), "expected_len": expected_out.len()})),
+                None => w.put(&json!({"id": sc["id"], "tool_error": "client could not connect"})),
+            }
+        }
+    });
+    w.finish();
+    0
+}
